@@ -87,7 +87,11 @@ class Player(Actor):
             elif op == "sleep":
                 await self.sleep_us(int(step["us"]))
             elif op == "jump":
-                self.sim.clock_jump(self.id, int(step["us"]))
+                await self.sim.net.clock_event(self, int(step["us"]))
+            elif op == "goto":
+                delta = int(step["us"]) - simclock.CLOCK.us
+                if delta > 0:
+                    await self.sim.net.clock_event(self, delta)
             elif op == "restart":
                 self.sim.restart(self.id)
             else:
